@@ -73,6 +73,7 @@ struct Plan {
     int vmode = VAL_ANY;
     int nice = 0;
     int pre = 0, post = 0; // junk bytes before / after each dump in its file
+    int seek = 0; // the input stream can be positioned (a file) or not (a pipe)
     std::vector<Op> ops;
 };
 
@@ -83,7 +84,7 @@ std::string plan_text(const Plan &p)
     o << "world hist\n";
     o << "run property=" << p.property << " profile=" << p.profile << " seed=" << p.seed << " nslots=" << p.nslots
       << " getbuf=" << p.getbuf << " putbuf=" << p.putbuf << " exc=" << p.exc << " vmode=" << p.vmode
-      << " nice=" << p.nice << " pre=" << p.pre << " post=" << p.post << "\n";
+      << " nice=" << p.nice << " pre=" << p.pre << " post=" << p.post << " seek=" << p.seek << "\n";
     for (auto &op : p.ops) {
         o << "op " << OP_NAMES[op.kind] << " a=" << op.a << " b=" << op.b;
         if (op.stack >= 0)
@@ -151,6 +152,8 @@ bool parse_plan(std::istream &is, Plan &p, std::string &expect)
                     p.pre = std::atoi(v.c_str());
                 else if (k == "post")
                     p.post = std::atoi(v.c_str());
+                else if (k == "seek")
+                    p.seek = std::atoi(v.c_str());
             }
             continue;
         }
@@ -834,7 +837,7 @@ struct World {
                 stream_fault = true;
                 prog->fault_kind = (uint64_t)F_TEAR;
             }
-            SimIStreamBuf sb(f.bytes, f.start, limit, (size_t)plan.getbuf, thr);
+            SimIStreamBuf sb(f.bytes, f.start, limit, (size_t)plan.getbuf, thr, plan.seek != 0);
             sb.refill_budget = 20 * (f.bytes.size() / (size_t)std::max(plan.getbuf, 1) + 8);
             std::istream is(&sb);
             if (plan.exc == 1)
@@ -900,6 +903,8 @@ struct World {
                 }
                 if (plan.getbuf == 1)
                     cnt.inc("probe.one_byte_reads");
+                if (sb.seeks)
+                    cnt.inc("observed.loader_positioned_the_stream");
             }
             break;
         }
@@ -1421,6 +1426,7 @@ Plan gen_plan(const std::string &property, const std::string &profile, uint64_t 
     p.nice = 0;
     p.pre = rk.chance(0.3) ? (int)rk.range(1, 9) : 0;
     p.post = rk.chance(0.3) ? (int)rk.range(1, 9) : 0;
+    p.seek = rk.chance(0.5) ? 1 : 0;
     double w[OP_NKINDS] = {0};
     bool f_alloc = false, f_stream = false, f_cuda = false;
     bool lookups = false;
